@@ -190,7 +190,7 @@ static int payload_claimed(const unsigned char *p, size_t n)
 	archive_read_support_filter_all(a);
 	archive_read_support_format_raw(a);
 	archive_read_support_format_empty(a);
-	unsigned char *src = malloc(n ? n : 1); memcpy(src, p, n);
+	unsigned char *src = malloc(n ? n : 1); if (n) memcpy(src, p, n);
 	int r = archive_read_open_memory(a, src, n);
 	int claimed = (r != ARCHIVE_OK) || archive_filter_count(a) > 1;
 	archive_read_free(a); free(src);
